@@ -38,6 +38,7 @@ RenameOf(n) == CASE n = "none" -> None
                  \* JSON-schema style wire names: a `$` followed by a letter starts a template in a Kotlin string literal and must
                  \* be written escaped there; with and without a character that needs escaping anyway
                  [] n = "$ref" -> <<"$","r","e","f">>
+                 [] n = "empty" -> <<>>                 \* serde(rename = ""): the variant is identified by the empty string
                  [] n = "$a_quote_b" -> <<"$","a","\"","b">>
 
 PairOf(n) == CASE n = "type_content" -> <<"type", "content">>
